@@ -4,7 +4,9 @@ import seqprop
 from props import _seqplans
 import schedupper
 
-THEOREMS = json.load(open(os.path.join(os.path.dirname(__file__), "_theorems.json")))["C10"]
+THEOREMS = {"C10.v": json.load(open(os.path.join(os.path.dirname(__file__), "_theorems.json")))["C10"],
+            # the same at the quiescent end of every interleaving of machine M2 (AfterInterleaving.v)
+            "ConcSeq.v": ["C10_after_every_interleaving"]}
 
 
 def run(ctx):
